@@ -587,6 +587,8 @@ type vProg struct {
 	forceC  int
 	forceT  int
 	forceJ  int
+	arena   []byte // the caller's byte buffers of nested FromRaw calls, recycled after every call
+	arenaOff int
 	rawBuf  []byte // the "caller's buffer" of Value.FromRaw([]byte), recycled by every such step
 	forceK  int // >= 0: kind of the cross-handle operation (3 MoveTo, 4 MoveAndAppendTo) with source = the position given
 	forceH  int // >= 0: the other handle of a forced cross-handle operation
@@ -664,6 +666,7 @@ type vPlan struct {
 	capOf   func() int  // capacity to substitute for %CAP% (after the step)
 	capObs  []string    // "(h, path, j" prefixes of capacity observations, with the wrapper
 	capW    []func() any
+	lateTerm func() string // when set: computes the Coq term AFTER the operation ran (it needs an observed order)
 	post    func(before []string, panicked bool) // direct oracle specific to the operation
 }
 
@@ -1018,6 +1021,9 @@ func (g *vProg) planAt(pos vPos, all []vPos) *vPlan {
 	case kAny:
 		v := vSlotW(n, node, j).(pcommon.Value)
 		if rng.Intn(8) == 0 {
+			return g.planFromRaw(pos, j, v)
+		}
+		if rng.Intn(8) == 0 {
 			// Value.FromRaw([]byte) from a buffer that the caller RECYCLES: filled, handed over, overwritten straight away
 			zs := make([]int64, rng.Intn(4))
 			for i := range zs {
@@ -1136,6 +1142,13 @@ func (g *vProg) planAt(pos vPos, all []vPos) *vPlan {
 			c = rng.Intn(11)
 		}
 		isMap := f.elem == 1
+		if (isMap || f.elem == 0) && g.forceC < 0 && rng.Intn(10) == 0 {
+			if pl := g.planFromRaw(pos, j, w); pl != nil {
+				pl.capObs = append(pl.capObs, fmt.Sprintf("(%d, %s, %d", h, pt, j))
+				pl.capW = append(pl.capW, func() any { _, nd := vNav(g.types[h], g.roots[h], pos.p); return vSlotW(n, nd, j) })
+				return pl
+			}
+		}
 		switch {
 		case c <= 3: // grow
 			if isMap {
@@ -1364,6 +1377,250 @@ func vOptFields(n int) []int {
 		}
 	}
 	return r
+}
+
+// ---- raw values for FromRaw (mirror of `raw` in coq/C07/Model.v) ---------------------------------------------
+type vRaw struct {
+	kind int // 0 nil, 1 scalar, 2 bytes, 3 map, 4 slice
+	tag  int
+	z    int64
+	zs   []int64
+	keys []int64
+	vals []*vRaw
+}
+
+func (g *vProg) genRaw(depth int) *vRaw {
+	rng := g.rng
+	k := rng.Intn(5)
+	if depth >= 2 && k >= 3 {
+		k = rng.Intn(3)
+	}
+	r := &vRaw{kind: k}
+	switch k {
+	case 1:
+		r.tag = 1 + rng.Intn(4)
+		r.z = int64(rng.Intn(10))
+		if r.tag == 4 {
+			r.z &= 1
+		}
+	case 2:
+		r.zs = make([]int64, rng.Intn(4))
+		for i := range r.zs {
+			r.zs[i] = int64(rng.Intn(9) + 1)
+		}
+	case 3:
+		perm := []int64{1, 2, 3, 4, 5, 6}
+		for n := rng.Intn(4); n > 0; n-- {
+			i := rng.Intn(len(perm))
+			r.keys = append(r.keys, perm[i])
+			perm = append(perm[:i], perm[i+1:]...)
+			r.vals = append(r.vals, g.genRaw(depth+1))
+		}
+	case 4:
+		for n := rng.Intn(4); n > 0; n-- {
+			r.vals = append(r.vals, g.genRaw(depth+1))
+		}
+	}
+	return r
+}
+
+// the Go raw value; every []byte is carved out of the arena that the caller overwrites after the call
+func (g *vProg) rawGo(r *vRaw) any {
+	switch r.kind {
+	case 1:
+		switch r.tag {
+		case 1:
+			return vKey(r.z)
+		case 2:
+			switch g.rng.Intn(4) { // FromRaw accepts every integer kind
+			case 0:
+				return int(r.z)
+			case 1:
+				return int32(r.z)
+			case 2:
+				return uint64(r.z)
+			}
+			return r.z
+		case 3:
+			if g.rng.Bool() {
+				return float32(r.z)
+			}
+			return float64(r.z)
+		}
+		return r.z == 1
+	case 2:
+		if g.arenaOff+len(r.zs) > len(g.arena) {
+			g.arenaOff = 0
+		}
+		b := g.arena[g.arenaOff : g.arenaOff+len(r.zs) : g.arenaOff+len(r.zs)+2]
+		g.arenaOff += len(r.zs) + 2
+		for i, z := range r.zs {
+			b[i] = byte(z)
+		}
+		return b
+	case 3:
+		m := map[string]any{}
+		for i, k := range r.keys {
+			m[vKey(k)] = g.rawGo(r.vals[i])
+		}
+		return m
+	case 4:
+		l := make([]any, len(r.vals))
+		for i, v := range r.vals {
+			l[i] = g.rawGo(v)
+		}
+		return l
+	}
+	return nil
+}
+
+// (Coq raw term, expected value term) of a raw value, raw maps in the order in which the implementation stored them
+func vRawTerms(r *vRaw, got pcommon.Value) (string, string) {
+	switch r.kind {
+	case 1:
+		return fmt.Sprintf("RScalar %d %s", r.tag, vZ(r.z)), fmt.Sprintf("VI %d %s", r.tag, vZ(r.z))
+	case 2:
+		it := make([]string, len(r.zs))
+		for i, z := range r.zs {
+			it[i] = "[" + vVP(z) + "]"
+		}
+		return "RBytes " + vZs(r.zs), "VR (Some (7, [VS [" + strings.Join(it, "; ") + "]]))"
+	case 3:
+		var m pcommon.Map
+		if got.Type() == pcommon.ValueTypeMap {
+			m = got.Map()
+		} else {
+			m = pcommon.NewMap()
+		}
+		a, b := vRawMapTerms(r, m)
+		return "RMap " + a, "VR (Some (5, [" + b + "]))"
+	case 4:
+		var sl pcommon.Slice
+		if got.Type() == pcommon.ValueTypeSlice {
+			sl = got.Slice()
+		} else {
+			sl = pcommon.NewSlice()
+		}
+		a, b := vRawSliceTerms(r, sl)
+		return "RSlice " + a, "VR (Some (6, [" + b + "]))"
+	}
+	return "RNil", "VI 0 0%Z"
+}
+
+func vRawMapTerms(r *vRaw, m pcommon.Map) (string, string) {
+	idx := map[int64]int{}
+	for i, k := range r.keys {
+		idx[k] = i
+	}
+	var ra, va []string
+	seen := map[int64]bool{}
+	m.Range(func(k string, v pcommon.Value) bool {
+		kz := vToZ(reflect.ValueOf(k))
+		if i, ok := idx[kz]; ok && !seen[kz] {
+			seen[kz] = true
+			a, b := vRawTerms(r.vals[i], v)
+			ra = append(ra, "("+vZ(kz)+", "+a+")")
+			va = append(va, "["+vVP(kz)+"; "+b+"]")
+		}
+		return true
+	})
+	for i, k := range r.keys { // entries the implementation lost: appended, so that the comparison fails
+		if !seen[k] {
+			a, b := vRawTerms(r.vals[i], pcommon.NewValueEmpty())
+			ra = append(ra, "("+vZ(k)+", "+a+")")
+			va = append(va, "["+vVP(k)+"; "+b+"]")
+		}
+	}
+	return "[" + strings.Join(ra, "; ") + "]", "VS [" + strings.Join(va, "; ") + "]"
+}
+
+func vRawSliceTerms(r *vRaw, sl pcommon.Slice) (string, string) {
+	ra := make([]string, len(r.vals))
+	va := make([]string, len(r.vals))
+	for i, v := range r.vals {
+		e := pcommon.NewValueEmpty()
+		if i < sl.Len() {
+			e = sl.At(i)
+		}
+		a, b := vRawTerms(v, e)
+		ra[i] = a
+		va[i] = "[" + b + "]"
+	}
+	return "[" + strings.Join(ra, "; ") + "]", "VS [" + strings.Join(va, "; ") + "]"
+}
+
+// FromRaw of a nested raw value on the Value / Map / Slice wrapper w at field j of pos; the raw bytes live in an
+// arena that the caller recycles (overwritten straight after the call)
+func (g *vProg) planFromRaw(pos vPos, j int, w any) *vPlan {
+	h, n := pos.h, pos.n
+	pt := vPathTerm(pos.p)
+	var r *vRaw
+	op := ""
+	switch w.(type) {
+	case pcommon.Value:
+		r, op = g.genRaw(0), "LFromRawV"
+	case pcommon.Map:
+		r, op = g.genRaw(1), "LFromRawM"
+		for r.kind != 3 {
+			r = g.genRaw(1)
+		}
+	case pcommon.Slice:
+		r, op = g.genRaw(1), "LFromRawS"
+		for r.kind != 4 {
+			r = g.genRaw(1)
+		}
+	default:
+		return nil
+	}
+	pl := &vPlan{name: "from-raw-nested", writes: []int{h}}
+	want := ""
+	pl.term = "%RAW%"
+	pl.run = func() {
+		if g.arena == nil {
+			g.arena = make([]byte, 96)
+		}
+		raw := g.rawGo(r)
+		var err error
+		switch x := w.(type) {
+		case pcommon.Value:
+			err = x.FromRaw(raw)
+		case pcommon.Map:
+			err = x.FromRaw(raw.(map[string]any))
+		case pcommon.Slice:
+			err = x.FromRaw(raw.([]any))
+		}
+		for i := range g.arena {
+			g.arena[i] = 0xEE
+		}
+		if err != nil {
+			g.oracle("unexpected-panic", "FromRaw returns an error on a supported raw value: "+err.Error())
+		}
+	}
+	pl.lateTerm = func() string { // the raw term needs the order in which the implementation stored the map entries
+		_, nd := vNav(g.types[h], g.roots[h], pos.p)
+		ww := vSlotW(n, nd, j)
+		a := ""
+		switch x := ww.(type) {
+		case pcommon.Value:
+			a, want = vRawTerms(r, x)
+			a = "(" + a + ")"
+		case pcommon.Map:
+			a, want = vRawMapTerms(r, x)
+		case pcommon.Slice:
+			a, want = vRawSliceTerms(r, x)
+		}
+		return fmt.Sprintf("OLocal %d %s (%s %d %s)", h, pt, op, j, a)
+	}
+	pl.post = func(_ []string, panicked bool) {
+		if panicked {
+			return
+		}
+		_, nd := vNav(g.types[h], g.roots[h], pos.p)
+		if got := vReadSlot(n, nd, j); got != want {
+			g.oracle("from-raw-wrong-value", "FromRaw of a nested raw value (the caller then overwrites its byte buffers): value reads "+got+" want "+want)
+		}
+	}
+	return pl
 }
 
 func vReadKey(n int, e any, k int) int64 {
@@ -1692,6 +1949,9 @@ func (g *vProg) step() bool {
 			if r := recover(); r != nil {
 				panicked = true
 				if fmt.Sprint(r) != "invalid access to shared data" {
+					if pl.lateTerm != nil {
+						pl.term = pl.lateTerm()
+					}
 					g.ops = append(g.ops, strings.ReplaceAll(pl.term, "%CAP%", "0"))
 					g.obsCode = append(g.obsCode, 9)
 					g.obsVals = append(g.obsVals, nil)
@@ -1707,6 +1967,9 @@ func (g *vProg) step() bool {
 		return false
 	}
 	term := pl.term
+	if pl.lateTerm != nil {
+		term = pl.lateTerm()
+	}
 	if strings.Contains(term, "%CAP%") {
 		c := 0
 		if !panicked {
